@@ -8,13 +8,16 @@
 #include <stddef.h>
 #include <limits.h>
 
+/* index form (one pointer expression base+idx instead of a cascade of returns: the
+ * result feeds further pointer arithmetic in the parser's line chopper) */
 void *memchr(const void *s, int c, size_t n)
 {
 	const unsigned char *p = s;
+	size_t idx = n;
 	for (size_t i = 0; i < n; i++) {
-		if (p[i] == (unsigned char)c) return (void*)(p + i);
+		if (idx == n && p[i] == (unsigned char)c) idx = i;
 	}
-	return NULL;
+	return idx < n ? (void*)(p + idx) : NULL;
 }
 
 /* bases 10, 8 and 0 (auto: leading 0 = octal), which is all echse asks for; at most
